@@ -38,7 +38,7 @@ CHECKS={
 
  "C04":("exploration","bit-exact differential monitor: N-cell Run vs every cell run alone (own parameter column, state row, input block), snapshots of inputs/parameters/padding compared after Run",
         "Held on the (model, N, P, B, T, padding, init/hot) grid x seeded domains that was executed; nothing is claimed for shapes or values not run.","trusted: harness array builders, sampling domains (DESIGN Appendix A)","3 C04"),
- "C06":("exploration","differential monitor: uninterrupted Run vs chained segment Runs carrying the returned states (all stateful models, many split schedules, init and hot starts)",
+ "C06":("exploration","differential monitor: uninterrupted Run vs chained segment Runs carrying the returned states (all stateful models, many split schedules, init and hot starts; segments on Go-backed arrays and on caller-owned C buffers with guard pages/canaries)",
         "Held on the executed (model, parameters, series, split schedule) cases within the stated tolerances, except for the two listed known findings.","tolerances of DESIGN 3/C06; sampling domains","3 C06"),
  "C11":("exploration","conservation / sign / constitutive-relation monitors evaluated at every timestep of generated StorageRouting runs (exit-path coverage from a verif hook), Muskingum steady-flow and event-volume monitors, Lag reference-model monitor over the (lag,length) grid incl. chained runs",
         "Held on every observed timestep; exit paths of the solver that were hit are listed in the evidence.","model's own definition of net evaporation; stable parameter region; tolerances of DESIGN 3/C11","3 C11"),
